@@ -483,7 +483,8 @@ func (c *Conn) OpenDownstream(ctx context.Context, filters []*message.Downstream
 		}
 	}
 
-	if downconf.AckFlushInterval == nil {
+	if downconf.AckFlushInterval == nil || *downconf.AckFlushInterval <= 0 {
+		// (a ticker cannot have a non-positive interval: the flush loop would panic)
 		downconf.AckFlushInterval = &defaultAckFlushInterval
 	}
 
